@@ -251,6 +251,8 @@ func c08(tier string) int {
 	// ... and through the bastion endpoint: a flood of pushed-back requests
 	// must not keep an honest step out once the rate is respected again.
 	c10RateRecovery(run, "C08")
+	// Upgrade leg: nothing an earlier release stored stops the next honest step.
+	legacyDBLeg(run, "C08")
 	run.Set("states", len(statesSeen))
 	run.Set("transitions", trans)
 	run.Set("traces_validated_against_impl", trans)
